@@ -38,6 +38,92 @@ Proof.
   - assert (c = 125) by lia. subst c. reflexivity.
 Qed.
 
+Lemma addr_list_in n a : In a (addr_list n) <-> 0 <= a < Z.of_nat n.
+Proof.
+  unfold addr_list. rewrite in_map_iff. split.
+  - intros [i [E I]]. apply in_seq in I. lia.
+  - intros H. exists (Z.to_nat a). split; [lia|]. apply in_seq. lia.
+Qed.
+
+Lemma track_app (P : Type) (k : Z -> option P) (w1 w2 : list (apoll P)) :
+  track k (w1 ++ w2) = track (track k w1) w2.
+Proof. unfold track. apply fold_left_app. Qed.
+
+(* ---------------------------------------------------------------- what the oracles mean *)
+
+Section OracleFacts.
+  Variable P : Type.
+
+  Lemma sweep_from_cons c n : 0 <= c <= 125 -> sweep_from c (S n) = c :: sweep_from (next_addr c) n.
+  Proof.
+    intros H. unfold sweep_from. cbn [seq map]. rewrite Z.add_0_r, Z.mod_small by lia. f_equal.
+    rewrite <- seq_shift, map_map. apply map_ext. intros i.
+    rewrite (next_addr_mod c H), Zplus_mod_idemp_l. f_equal. lia.
+  Qed.
+
+  (* closed form of the cursor oracle: the probed addresses are consecutive modulo 126 *)
+  Lemma cursor_walk_closed_form (tr : list (apoll P)) : forall c dn,
+    0 <= c <= 125 -> cursor_walk c dn tr = true ->
+    probed tr = sweep_from (if dn then next_addr c else c) (length (probed tr)).
+  Proof.
+    induction tr as [|p r IH]; intros c dn Hc W; [reflexivity|].
+    cbn [cursor_walk] in W. cbn [probed flat_map]. fold (probed r).
+    destruct (ap_da p) as [a|] eqn:Dp; destruct dn; try discriminate W; cbn [opt_list app length].
+    - apply andb_prop in W. destruct W as [W1 W]. apply andb_prop in W1. destruct W1 as [W1 _].
+      apply Z.eqb_eq in W1. subst a. rewrite sweep_from_cons by exact Hc. f_equal.
+      exact (IH c true Hc W).
+    - exact (IH (next_addr c) false (next_addr_range c Hc) W).
+  Qed.
+
+  Lemma sweep_from_range c n : Forall (fun a => 0 <= a <= 125) (sweep_from c n).
+  Proof.
+    unfold sweep_from. apply Forall_forall. intros a I. apply in_map_iff in I.
+    destruct I as [i [E _]]. subst a. pose proof (Z.mod_pos_bound (c + Z.of_nat i) 126 ltac:(lia)). lia.
+  Qed.
+
+  Lemma fold_alt_none (evs : list (aev P)) : fold_left (alt_ev P) evs None = None.
+  Proof. induction evs as [|e evs IH]; [reflexivity|exact IH]. Qed.
+
+  Lemma alt_events_from a (evs : list (aev P)) : 0 <= a -> forall k k' rest,
+    fold_left (alt_ev P) evs (Some k) = Some k' ->
+    alt_from (Z.testbit k a) (flat_map (ev_kinds a) evs ++ rest) = alt_from (Z.testbit k' a) rest.
+  Proof.
+    intros Ha. induction evs as [|e evs IH]; intros k k' rest F; cbn [fold_left flat_map app] in *.
+    - injection F as F. subst k'. reflexivity.
+    - rewrite <- app_assoc. destruct e as [b q|b q|b]; cbn [alt_ev ev_kinds] in *;
+        destruct (Z.testbit k b) eqn:B; try (rewrite fold_alt_none in F; discriminate F).
+      + destruct (Z.eqb_spec b a) as [E|E]; cbn [app].
+        * subst b. rewrite B. cbn [alt_from]. rewrite <- (IH _ _ rest F).
+          rewrite Z.setbit_eq by lia. reflexivity.
+        * rewrite <- (IH _ _ rest F). rewrite testbit_setbit by exact Ha.
+          destruct (Z.eqb_spec b a); [contradiction|reflexivity].
+      + destruct (Z.eqb_spec b a) as [E|E]; cbn [app].
+        * subst b. rewrite B. cbn [alt_from]. rewrite <- (IH _ _ rest F). rewrite B. reflexivity.
+        * exact (IH _ _ rest F).
+      + destruct (Z.eqb_spec b a) as [E|E]; cbn [app].
+        * subst b. rewrite B. cbn [alt_from]. rewrite <- (IH _ _ rest F).
+          rewrite Z.clearbit_eq. reflexivity.
+        * rewrite <- (IH _ _ rest F). rewrite Z.clearbit_neq by exact E. reflexivity.
+  Qed.
+
+  (* the per address reading of the alternation oracle: the events about address a strictly
+     alternate (Up only when unknown, Down and Re only when known) and account for its
+     membership from the first to the last state *)
+  Lemma alt_walk_per_address a (tr : list (apoll P)) : 0 <= a -> forall k k',
+    alt_walk false k tr = Some k' ->
+    alt_from (Z.testbit k a) (kinds_of a tr) = Some (Z.testbit k' a).
+  Proof.
+    intros Ha. induction tr as [|p r IH]; intros k k' W; cbn [alt_walk kinds_of flat_map] in *.
+    - injection W as W. subst k'. reflexivity.
+    - match type of W with context [fold_left _ _ (Some ?x)] => replace x with k in W end.
+      2:{ destruct (ap_da p); [|reflexivity]. destruct (ap_cls p); reflexivity. }
+      destruct (fold_left (alt_ev P) (ap_evs p) (Some k)) as [k1|] eqn:F; [|discriminate W].
+      destruct (Z.eqb_spec k1 (ap_bits p)) as [E|E]; [|discriminate W].
+      fold (kinds_of a r). rewrite (alt_events_from a (ap_evs p) Ha k k1 (kinds_of a r) F).
+      exact (IH k1 k' W).
+  Qed.
+End OracleFacts.
+
 Section Machine.
   Variable P : Type.
   Variable peqb : P -> P -> bool.
@@ -455,79 +541,115 @@ Section Machine.
       rewrite a_trace_length. exact L.
     Qed.
   End Track.
+  (* ---------------------------------------------------------------- the convergence oracle never
+     raises a false alarm on a machine trace that starts with bits 126.. clear *)
+
+  Definition hi_clear (st : ast) : Prop := forall a, 125 < a -> Z.testbit (a_bits st) a = false.
+
+  Lemma a_hi_clear h st : cur_ok st -> hi_clear st -> hi_clear (a_final st h).
+  Proof. intros H C a Ha. rewrite a_bits_outside by assumption. apply C. exact Ha. Qed.
+
+  Lemma a_trace_snoc st h ce : a_trace st (h ++ [ce]) = a_trace st h ++ [a_obs (a_final st h) ce].
+  Proof. rewrite a_trace_app. reflexivity. Qed.
+
+  Lemma a_final_snoc st h ce : a_final st (h ++ [ce]) = a_next (a_final st h) ce.
+  Proof. rewrite a_final_app. reflexivity. Qed.
+
+  Lemma last_bits_trace d h st : h <> [] -> last_bits d (a_trace st h) = a_bits (a_final st h).
+  Proof.
+    destruct h as [|ce h] using rev_ind; [intros C; contradiction|]. intros _.
+    rewrite a_trace_snoc, a_final_snoc. unfold last_bits. rewrite rev_app_distr. cbn [rev app].
+    apply a_obs_bits.
+  Qed.
+
+  Lemma window_set_other (w : list (apoll P)) : forall m0 n, 0 <= n -> ~ In n (probed w) ->
+    Z.testbit (window_set m0 w) n = Z.testbit m0 n.
+  Proof.
+    induction w as [|p w IH]; intros m0 n Hn NI; [reflexivity|].
+    cbn [window_set]. cbn [probed flat_map] in NI. fold (probed w) in NI.
+    destruct (ap_da p) as [z|]; cbn [opt_list app] in NI.
+    - assert (z <> n) by (intros E; apply NI; left; exact E).
+      assert (~ In n (probed w)) by (intros I; apply NI; right; exact I).
+      rewrite IH by assumption.
+      destruct (ap_cls p); rewrite ?testbit_clearbit, ?testbit_setbit by exact Hn;
+        destruct (Z.eqb_spec z n); try contradiction; cbn [negb orb]; rewrite ?andb_true_r; reflexivity.
+    - apply IH; assumption.
+  Qed.
+
+  Lemma probed_in_range st h a : cur_ok st -> In a (probed (a_trace st h)) -> 0 <= a <= 125.
+  Proof.
+    intros H I.
+    pose proof (cursor_walk_closed_form P (a_trace st h) (a_cur st) (a_dn st) H (a_cursor h st H)) as E.
+    rewrite E in I. pose proof (sweep_from_range (if a_dn st then next_addr (a_cur st) else a_cur st)
+                                  (length (probed (a_trace st h)))) as F.
+    rewrite Forall_forall in F. exact (F a I).
+  Qed.
+
+  Lemma opt_peqb_refl (o : option P) : opt_peqb peqb o o = true.
+  Proof. destruct o; [apply peqb_refl|reflexivity]. Qed.
+
+  Lemma a_converge_check_ok payloads st0 h0 hw :
+    cur_ok st0 -> hi_clear st0 ->
+    (payloads = true -> requery = true /\ forall p q, peqb p q = true -> p = q) ->
+    converge_check peqb payloads (a_trace st0 h0) (a_trace (a_final st0 h0) hw) <> Some false.
+  Proof.
+    intros H0 C0 Hp. set (st := a_final st0 h0).
+    assert (H : cur_ok st) by (apply a_final_cur_ok; exact H0).
+    assert (C : hi_clear st) by (apply a_hi_clear; assumption).
+    unfold converge_check.
+    set (w := a_trace st hw). set (m := window_set 0 w). set (pay := window_pay (fun _ => None) w).
+    destruct (Nat.leb sweep_polls (length w) && consistent (Z.testbit m) w && pay_consistent peqb pay w) eqn:Cond;
+      [|discriminate].
+    apply andb_prop in Cond. destruct Cond as [Cond C2]. apply andb_prop in Cond. destruct Cond as [L C1].
+    apply Nat.leb_le in L. unfold w in L. rewrite a_trace_length in L.
+    assert (E1 : (last_bits 0 w =? m) = true).
+    { apply Z.eqb_eq. unfold w. rewrite last_bits_trace.
+      2:{ intros E. rewrite E in L. unfold sweep_polls in L. cbn [length] in L. lia. }
+      apply Z.bits_inj'. intros n Hn. destruct (Z.le_gt_cases n 125) as [Le|Gt].
+      - exact (a_converges (Z.testbit m) hw st H L C1 n (conj Hn Le)).
+      - rewrite (a_hi_clear hw st H C n ltac:(lia)). symmetry. unfold m.
+        rewrite window_set_other; [apply Z.testbit_0_l|exact Hn|].
+        intros I. apply (probed_in_range st hw n H) in I. lia. }
+    rewrite E1. cbn [andb]. destruct payloads; [|discriminate].
+    destruct (Hp eq_refl) as [Rq Pe].
+    assert (E2 : forallb (fun a => opt_peqb peqb (track (fun _ => None) (a_trace st0 h0 ++ w) a)
+                                     (if Z.testbit m a then pay a else None)) (addr_list sweep_len) = true).
+    { apply forallb_forall. intros a Ia. apply addr_list_in in Ia. unfold sweep_len in Ia.
+      rewrite track_app. unfold w.
+      rewrite (a_track_converges (Z.testbit m) pay Rq Pe hw _ st H); try assumption.
+      - apply opt_peqb_refl.
+      - apply (a_tinv Rq h0 (fun _ => None) st0 H0). intros x _. reflexivity.
+      - lia. }
+    rewrite E2. discriminate.
+  Qed.
+
+  Lemma a_trace_firstn n : forall st h, firstn n (a_trace st h) = a_trace st (firstn n h).
+  Proof.
+    induction n as [|n IH]; intros st h; [reflexivity|].
+    destruct h as [|ce h]; [reflexivity|]. cbn [a_trace firstn]. rewrite IH. reflexivity.
+  Qed.
+
+  Lemma a_trace_skipn n : forall st h,
+    skipn n (a_trace st h) = a_trace (a_final st (firstn n h)) (skipn n h).
+  Proof.
+    induction n as [|n IH]; intros st h; [reflexivity|].
+    destruct h as [|ce h]; [reflexivity|]. cbn [a_trace skipn firstn a_final]. apply IH.
+  Qed.
+
+  Lemma a_converge_scan_ok payloads n st0 :
+    cur_ok st0 -> hi_clear st0 ->
+    (payloads = true -> requery = true /\ forall p q, peqb p q = true -> p = q) ->
+    forall fuel h0 h1 acc, snd acc = 0%nat ->
+    snd (converge_scan peqb payloads n fuel (a_trace st0 h0) (a_trace (a_final st0 h0) h1) acc) = 0%nat.
+  Proof.
+    intros H0 C0 Hp. induction fuel as [|fuel IH]; intros h0 h1 acc A; cbn [converge_scan]; [exact A|].
+    destruct (Nat.ltb (length (a_trace (a_final st0 h0) h1)) n); [exact A|].
+    rewrite (a_trace_firstn n), (a_trace_firstn sweep_polls), (a_trace_skipn sweep_polls).
+    rewrite <- a_trace_app, <- a_final_app.
+    apply IH.
+    pose proof (a_converge_check_ok payloads st0 h0 (firstn n h1) H0 C0 Hp) as Ok_.
+    destruct (converge_check peqb payloads (a_trace st0 h0) (a_trace (a_final st0 h0) (firstn n h1))) as [[|]|];
+      [exact A|exfalso; apply Ok_; reflexivity|exact A].
+  Qed.
 End Machine.
 
-(* ---------------------------------------------------------------- what the oracles mean *)
-
-Section OracleFacts.
-  Variable P : Type.
-
-  Lemma sweep_from_cons c n : 0 <= c <= 125 -> sweep_from c (S n) = c :: sweep_from (next_addr c) n.
-  Proof.
-    intros H. unfold sweep_from. cbn [seq map]. rewrite Z.add_0_r, Z.mod_small by lia. f_equal.
-    rewrite <- seq_shift, map_map. apply map_ext. intros i.
-    rewrite (next_addr_mod c H), Zplus_mod_idemp_l. f_equal. lia.
-  Qed.
-
-  (* closed form of the cursor oracle: the probed addresses are consecutive modulo 126 *)
-  Lemma cursor_walk_closed_form (tr : list (apoll P)) : forall c dn,
-    0 <= c <= 125 -> cursor_walk c dn tr = true ->
-    probed tr = sweep_from (if dn then next_addr c else c) (length (probed tr)).
-  Proof.
-    induction tr as [|p r IH]; intros c dn Hc W; [reflexivity|].
-    cbn [cursor_walk] in W. cbn [probed flat_map]. fold (probed r).
-    destruct (ap_da p) as [a|] eqn:Dp; destruct dn; try discriminate W; cbn [opt_list app length].
-    - apply andb_prop in W. destruct W as [W1 W]. apply andb_prop in W1. destruct W1 as [W1 _].
-      apply Z.eqb_eq in W1. subst a. rewrite sweep_from_cons by exact Hc. f_equal.
-      exact (IH c true Hc W).
-    - exact (IH (next_addr c) false (next_addr_range c Hc) W).
-  Qed.
-
-  Lemma sweep_from_range c n : Forall (fun a => 0 <= a <= 125) (sweep_from c n).
-  Proof.
-    unfold sweep_from. apply Forall_forall. intros a I. apply in_map_iff in I.
-    destruct I as [i [E _]]. subst a. pose proof (Z.mod_pos_bound (c + Z.of_nat i) 126 ltac:(lia)). lia.
-  Qed.
-
-  Lemma fold_alt_none (evs : list (aev P)) : fold_left (alt_ev P) evs None = None.
-  Proof. induction evs as [|e evs IH]; [reflexivity|exact IH]. Qed.
-
-  Lemma alt_events_from a (evs : list (aev P)) : 0 <= a -> forall k k' rest,
-    fold_left (alt_ev P) evs (Some k) = Some k' ->
-    alt_from (Z.testbit k a) (flat_map (ev_kinds a) evs ++ rest) = alt_from (Z.testbit k' a) rest.
-  Proof.
-    intros Ha. induction evs as [|e evs IH]; intros k k' rest F; cbn [fold_left flat_map app] in *.
-    - injection F as F. subst k'. reflexivity.
-    - rewrite <- app_assoc. destruct e as [b q|b q|b]; cbn [alt_ev ev_kinds] in *;
-        destruct (Z.testbit k b) eqn:B; try (rewrite fold_alt_none in F; discriminate F).
-      + destruct (Z.eqb_spec b a) as [E|E]; cbn [app].
-        * subst b. rewrite B. cbn [alt_from]. rewrite <- (IH _ _ rest F).
-          rewrite Z.setbit_eq by lia. reflexivity.
-        * rewrite <- (IH _ _ rest F). rewrite testbit_setbit by exact Ha.
-          destruct (Z.eqb_spec b a); [contradiction|reflexivity].
-      + destruct (Z.eqb_spec b a) as [E|E]; cbn [app].
-        * subst b. rewrite B. cbn [alt_from]. rewrite <- (IH _ _ rest F). rewrite B. reflexivity.
-        * exact (IH _ _ rest F).
-      + destruct (Z.eqb_spec b a) as [E|E]; cbn [app].
-        * subst b. rewrite B. cbn [alt_from]. rewrite <- (IH _ _ rest F).
-          rewrite Z.clearbit_eq. reflexivity.
-        * rewrite <- (IH _ _ rest F). rewrite Z.clearbit_neq by exact E. reflexivity.
-  Qed.
-
-  (* the per address reading of the alternation oracle: the events about address a strictly
-     alternate (Up only when unknown, Down and Re only when known) and account for its
-     membership from the first to the last state *)
-  Lemma alt_walk_per_address a (tr : list (apoll P)) : 0 <= a -> forall k k',
-    alt_walk false k tr = Some k' ->
-    alt_from (Z.testbit k a) (kinds_of a tr) = Some (Z.testbit k' a).
-  Proof.
-    intros Ha. induction tr as [|p r IH]; intros k k' W; cbn [alt_walk kinds_of flat_map] in *.
-    - injection W as W. subst k'. reflexivity.
-    - match type of W with context [fold_left _ _ (Some ?x)] => replace x with k in W end.
-      2:{ destruct (ap_da p); [|reflexivity]. destruct (ap_cls p); reflexivity. }
-      destruct (fold_left (alt_ev P) (ap_evs p) (Some k)) as [k1|] eqn:F; [|discriminate W].
-      destruct (Z.eqb_spec k1 (ap_bits p)) as [E|E]; [|discriminate W].
-      fold (kinds_of a r). rewrite (alt_events_from a (ap_evs p) Ha k k1 (kinds_of a r) F).
-      exact (IH k1 k' W).
-  Qed.
-End OracleFacts.
